@@ -196,7 +196,10 @@ def r3_generate(prog, rep):
     rep.check(oku, "R3-template", "generate: Update(empty) once after the loop, then the reseed counter + 1", (upd[0].where if upd else ge.loc), "", function="generate", construct="generate-tail")
     if not (okh and oku):
         return
-    A = poly.Analysis(ge, assume=[("==", Hh, Lin.const(0))], quiet={"HMAC_SHA256_Buf", "memcpy", "update", "__assert_fail"}, unsigned_terms={LEN}, post={"HMAC_SHA256_Buf": lambda A_, call, st, cs: A_.bump(cs, ("$h",), 1)})
+    # the buffer pointer and the length as they were on entry (a loop may walk the one and count the other down)
+    B0, L0 = Lin.var(("$b0",)), Lin.var(("$l0",))
+    A = poly.Analysis(ge, assume=[("==", Hh, Lin.const(0)), ("==", B0, Lin.var(BUF)), ("==", L0, Lin.var(LEN)), (">=", L0, Lin.const(0))],
+                      quiet={"HMAC_SHA256_Buf", "memcpy", "update", "__assert_fail"}, unsigned_terms={LEN}, post={"HMAC_SHA256_Buf": lambda A_, call, st, cs: A_.bump(cs, ("$h",), 1)})
     A.run()
     copies = [c for c in ge.calls("memcpy") if sh(norm(c.arg(1))) == "drbg.V"]
     rep.check(bool(copies), "R3-template", "generate: output is copied from V", ge.loc, "no memcpy(.., drbg.V, ..)", function="generate", construct="generate-copy")
@@ -204,18 +207,8 @@ def r3_generate(prog, rep):
         st = A.state_before(c)
         if st is None:
             continue
-        d = norm(c.arg(0))
-        while d[0] == "cast":
-            d = d[-1]
-        off = None
-        if d == BUF:
-            off = Lin.const(0)
-        elif d[0] == "&" and d[1][0] == "[]" and d[1][1] == BUF:
-            a = c.arg(0).strip()
-            while a is not None and a.cls in ("CStyleCastExpr", "ImplicitCastExpr", "ParenExpr"):
-                a = a.kid(0).strip() if a.kid(0) is not None else None
-            sub = a.kid(0).strip() if a is not None and a.cls == "UnaryOperator" and a.kid(0) is not None else None
-            off = A.lin(sub.kid(1), st) if sub is not None and sub.cls == "ArraySubscriptExpr" else None
+        a0 = A.lin(c.arg(0), st)
+        off = (a0 - B0) if a0 is not None else None
         n = A.lin(c.arg(2), st)
         ok = off is not None and n is not None
         why = "destination or length not followed"
@@ -223,16 +216,16 @@ def r3_generate(prog, rep):
             ok = A.holds(st, "==", off, Hh.scale(32) - Lin.const(32))
             why = "the copy after step k does not go to buf + 32 (k - 1)"
         if ok:
-            ok = A.holds(st, ">=", n, Lin.const(0)) and A.holds(st, "<=", n, Lin.const(32)) and A.holds(st, "<=", off + n, Lin.var(LEN))
+            ok = A.holds(st, ">=", n, Lin.const(0)) and A.holds(st, "<=", n, Lin.const(32)) and A.holds(st, "<=", off + n, L0)
             why = "the length copied is not within 0..32 and the rest of the buffer"
         if ok:
             for P in (st if poly._is_disj(st) else [st]):
-                if not (A._entailsP(P, poly.cons("==", n, Lin.const(32))) or A._entailsP(P, poly.cons("==", off + n, Lin.var(LEN)))):
+                if not (A._entailsP(P, poly.cons("==", n, Lin.const(32))) or A._entailsP(P, poly.cons("==", off + n, L0))):
                     ok = False
                     why = "a copy of fewer than 32 bytes that does not end the buffer"
         rep.check(ok, "R3-template", "generate: `%s` copies min(32, what remains) to buf + 32 (steps - 1)" % c.text[:44], c.where, why, function="generate", construct="generate-copy")
     st = A.state_before(upd[0])
-    ok = st is not None and A.holds(st, ">=", Hh.scale(32), Lin.var(LEN)) and A.holds(st, "<=", Hh.scale(32), Lin.var(LEN) + Lin.const(31))
+    ok = st is not None and A.holds(st, ">=", Hh.scale(32), L0) and A.holds(st, "<=", Hh.scale(32), L0 + Lin.const(31))
     rep.check(ok, "R3-template", "generate: exactly ceil(buflen / 32) steps are made before the state is updated", upd[0].where,
               "buflen <= 32 * steps <= buflen + 31 is not established here: a step too many or too few changes the state the next call starts from "
               "(or leaves the tail of the buffer unwritten)", function="generate", construct="generate-count")
